@@ -16,7 +16,7 @@ SPEC = {
         "x/crypto/blake2b recomputes the Boneh-Katz id / MAC key / tag when a ciphertext is transcoded into the legacy (v1.3.7) layout; the transcoder is validated byte-for-byte against testdata/ciphertext_v137",
         "operator precedence of the policy language is not > and > or with left-associative binary operators (as implemented by internal/dsl/parser.go and used by its tests); the generator only omits parentheses that this precedence makes redundant",
     ],
-    "budget": {"quick": 600, "thorough": 2400},
+    "budget": {"quick": 900, "thorough": 3600},
 }
 
 MANIFEST = {
